@@ -63,7 +63,8 @@ class Timezone(zoneinfo.ZoneInfo, PendulumTimezone):
     def __new__(cls, key: str) -> Self:
         try:
             return super().__new__(cls, key)  # type: ignore[call-arg]
-        except zoneinfo.ZoneInfoNotFoundError:
+        except (zoneinfo.ZoneInfoNotFoundError, OSError):
+            # OSError: the key names a directory of the database ("Europe")
             raise InvalidTimezone(key)
 
     @property
